@@ -249,19 +249,26 @@ Proof.
   induction a as [|x a IH]; destruct b as [|y b]; cbn [list_eqb]; intros Hab; try discriminate; auto.
   apply andb_true_iff in Hab. destruct Hab as [Hxy Hab]. apply Nat.eqb_eq in Hxy. f_equal; auto.
 Qed.
+Lemma mname_eqb_eq : forall a b, mname_eqb a b = true -> a = b.
+Proof.
+  intros [a1 a2] [b1 b2] Hab. unfold mname_eqb in Hab. cbn [fst snd] in Hab.
+  apply andb_true_iff in Hab. destruct Hab as [H1 H2]. apply Nat.eqb_eq in H1, H2. congruence.
+Qed.
+Lemma mname_eqb_refl : forall a, mname_eqb a a = true.
+Proof. intros [a1 a2]. unfold mname_eqb. cbn [fst snd]. rewrite !Nat.eqb_refl. reflexivity. Qed.
 Lemma key_sub_eqb_eq : forall a b, key_sub_eqb a b = true -> a = b.
 Proof.
   intros [a1 a2] [b1 b2] Hab. unfold key_sub_eqb in Hab. cbn [fst snd] in Hab.
-  apply andb_true_iff in Hab. destruct Hab as [H1 H2]. apply Nat.eqb_eq in H1, H2. congruence.
+  apply andb_true_iff in Hab. destruct Hab as [H1 H2]. apply Nat.eqb_eq in H1. apply mname_eqb_eq in H2. congruence.
 Qed.
 Lemma key_edge_eqb_eq : forall a b, key_edge_eqb a b = true -> a = b.
 Proof.
   intros [a1 a2] [b1 b2] Hab. unfold key_edge_eqb in Hab. cbn [fst snd] in Hab.
-  apply andb_true_iff in Hab. destruct Hab as [H1 H2]. apply Nat.eqb_eq in H2. apply list_eqb_eq in H1. congruence.
+  apply andb_true_iff in Hab. destruct Hab as [H1 H2]. apply mname_eqb_eq in H2. apply list_eqb_eq in H1. congruence.
 Qed.
 
 (* every cache entry equals the fresh computation for the graph its key's name denotes *)
-Definition cache_inv (naming : nat -> graph) (st : caches) : Prop :=
+Definition cache_inv (naming : mname -> graph) (st : caches) : Prop :=
   (forall k v, alookup key_sub_eqb k (cc_sub st) = Some v -> v = enum (naming (snd k)) (fst k)) /\
   (forall k v, alookup key_edge_eqb k (cc_edge st) = Some v -> v = combos_for (naming (snd k)) (fst k)).
 
@@ -305,7 +312,7 @@ Section History.
       term_of A g root phi u [v] l1 = term_of A g root phi u [v] l2.
   Proof. reflexivity. Qed.
 
-  Definition fold_fun (name : nat) (g : graph) (root : nat) (phi : T) (u : nat -> T)
+  Definition fold_fun (name : mname) (g : graph) (root : nat) (phi : T) (u : nat -> T)
              (as_ : T * caches) (c : list nat) : T * caches :=
     let '(acc, s) := as_ in
     match c with
@@ -370,12 +377,12 @@ Section History.
       fst (auto_step A caches_empty name g root phi u) = fresh_value g root phi u.
   Proof.
     intros name g root phi u.
-    pose (naming := fun _ : nat => g).
+    pose (naming := fun _ : mname => g).
     exact (proj1 (auto_step_inv naming caches_empty name root phi u (cache_inv_empty naming))).
   Qed.
 
   (* a call = (name, graph, root, phi, u); a history = list of calls on one evaluator *)
-  Record call := mk_call { c_name : nat; c_graph : graph; c_root : nat; c_phi : T; c_u : nat -> T }.
+  Record call := mk_call { c_name : mname; c_graph : graph; c_root : nat; c_phi : T; c_u : nat -> T }.
 
   Fixpoint run_history (st : caches) (calls : list call) : list (option T) :=
     match calls with
@@ -409,11 +416,11 @@ Section History.
     - exists (fun _ => ([], [])). intros c [].
     - destruct IH as [nm Hnm].
       { intros c1 c2 H1 H2. apply Hd; right; assumption. }
-      exists (fun n => if Nat.eqb n (c_name c) then c_graph c else nm n).
+      exists (fun n => if mname_eqb n (c_name c) then c_graph c else nm n).
       intros c' [<-|Hc'].
-      + rewrite Nat.eqb_refl. reflexivity.
-      + destruct (Nat.eqb (c_name c') (c_name c)) eqn:E.
-        * apply Nat.eqb_eq in E. apply Hd; [right; exact Hc'|left; reflexivity|exact E].
+      + rewrite mname_eqb_refl. reflexivity.
+      + destruct (mname_eqb (c_name c') (c_name c)) eqn:E.
+        * apply mname_eqb_eq in E. apply Hd; [right; exact Hc'|left; reflexivity|exact E].
         * apply Hnm. exact Hc'.
   Qed.
 
@@ -492,4 +499,137 @@ Proof.
   intros n k es Hk He. unfold graphs_upto. apply in_flat_map. exists k. split.
   - apply in_seq. lia.
   - unfold graphs_on. apply (in_map (fun es0 => (seq 0 k, es0))). exact He.
+Qed.
+
+(* ================================================================== *)
+
+(* ================================================================== *)
+(* 9. related arithmetics compute related values (used for: reduced fractions in the extracted
+   model, and compatibility of the rational model with Qeq) *)
+Record alg_rel {S T} (A : alg S) (B : alg T) (R : S -> T -> Prop) : Prop := mk_rel {
+  r_0 : R (a0 A) (a0 B);
+  r_1 : R (a1 A) (a1 B);
+  r_add : forall x x' y y', R x x' -> R y y' -> R (aadd A x y) (aadd B x' y');
+  r_mul : forall x x' y y', R x x' -> R y y' -> R (amul A x y) (amul B x' y');
+  r_sub : forall x x' y y', R x x' -> R y y' -> R (asub A x y) (asub B x' y');
+  r_pow : forall x x' n, R x x' -> R (apow A x n) (apow B x' n) }.
+
+Section Rel.
+  Context {S T : Type} (A : alg S) (B : alg T) (R : S -> T -> Prop) (H : alg_rel A B R).
+
+  Lemma fold_add_rel : forall l l', Forall2 R l l' -> forall acc acc', R acc acc' ->
+      R (fold_left (aadd A) l acc) (fold_left (aadd B) l' acc').
+  Proof.
+    induction 1 as [|x x' l l' Hx Hl IH]; intros acc acc' Hacc; cbn [fold_left]; [exact Hacc|].
+    apply IH. apply (r_add _ _ _ H); assumption.
+  Qed.
+  Lemma fold_mul_rel : forall l l', Forall2 R l l' -> forall acc acc', R acc acc' ->
+      R (fold_left (amul A) l acc) (fold_left (amul B) l' acc').
+  Proof.
+    induction 1 as [|x x' l l' Hx Hl IH]; intros acc acc' Hacc; cbn [fold_left]; [exact Hacc|].
+    apply IH. apply (r_mul _ _ _ H); assumption.
+  Qed.
+  Lemma Forall2_map_rel : forall {X} (f : X -> S) (f' : X -> T) l,
+      (forall x, R (f x) (f' x)) -> Forall2 R (map f l) (map f' l).
+  Proof. intros X f f' l Hf. induction l; cbn [map]; constructor; auto. Qed.
+
+  Lemma term_of_rel : forall g root phi phi' u u' c combos,
+      R phi phi' -> (forall v, R (u v) (u' v)) ->
+      R (term_of A g root phi u c combos) (term_of B g root phi' u' c combos).
+  Proof.
+    intros g root phi phi' u u' c combos Hphi Hu.
+    assert (H1m : R (asub A (a1 A) phi) (asub B (a1 B) phi')).
+    { apply (r_sub _ _ _ H); [apply (r_1 _ _ _ H)|exact Hphi]. }
+    assert (Hgen : forall ec ni,
+      R (asum A (map (fun n => amul A (amul A (amul A (apow A phi (length ec - n))
+                 (apow A (asub A (a1 A) phi) n)) (apow A (asub A (a1 A) phi) ni))
+                 (aprod A (map u (filter (fun v => negb (Nat.eqb v root)) (live_nodes (g_nodes g) ec))))) combos))
+        (asum B (map (fun n => amul B (amul B (amul B (apow B phi' (length ec - n))
+                 (apow B (asub B (a1 B) phi') n)) (apow B (asub B (a1 B) phi') ni))
+                 (aprod B (map u' (filter (fun v => negb (Nat.eqb v root)) (live_nodes (g_nodes g) ec))))) combos))).
+    { intros ec ni. unfold asum. apply fold_add_rel; [|apply (r_0 _ _ _ H)].
+      apply Forall2_map_rel. intros n.
+      apply (r_mul _ _ _ H); [apply (r_mul _ _ _ H); [apply (r_mul _ _ _ H)|]|].
+      1-3: apply (r_pow _ _ _ H); assumption.
+      unfold aprod. apply fold_mul_rel; [|apply (r_1 _ _ _ H)].
+      apply Forall2_map_rel. exact Hu. }
+    unfold term_of. destruct c as [|v [|w c']].
+    - apply Hgen.
+    - apply (r_pow _ _ _ H). exact H1m.
+    - apply Hgen.
+  Qed.
+
+  Lemma auto_gen_rel : forall g root phi phi' u u',
+      R phi phi' -> (forall v, R (u v) (u' v)) ->
+      R (auto_gen A g root phi u) (auto_gen B g root phi' u').
+  Proof.
+    intros. unfold auto_gen, asum. apply fold_add_rel; [|apply (r_0 _ _ _ H)].
+    apply Forall2_map_rel. intros c. apply term_of_rel; assumption.
+  Qed.
+
+  Lemma exact_rec_rel : forall nodes root phi phi' u u',
+      R phi phi' -> (forall v, R (u v) (u' v)) ->
+      forall es kept, R (exact_rec A nodes root phi u es kept) (exact_rec B nodes root phi' u' es kept).
+  Proof.
+    intros nodes root phi phi' u u' Hphi Hu. induction es as [|e es IH]; intros kept; cbn [exact_rec].
+    - unfold aprod. apply fold_mul_rel; [|apply (r_1 _ _ _ H)].
+      apply Forall2_map_rel. exact Hu.
+    - apply (r_add _ _ _ H); apply (r_mul _ _ _ H); try apply IH; try assumption.
+      apply (r_sub _ _ _ H); [apply (r_1 _ _ _ H)|exact Hphi].
+  Qed.
+  Lemma exact_gen_rel : forall g root phi phi' u u',
+      R phi phi' -> (forall v, R (u v) (u' v)) ->
+      R (exact_gen A g root phi u) (exact_gen B g root phi' u').
+  Proof. intros. unfold exact_gen. apply exact_rec_rel; assumption. Qed.
+End Rel.
+
+Lemma alg_q_proper : alg_rel alg_q alg_q Qeq.
+Proof.
+  constructor; cbn [alg_q a0 a1 aadd amul asub apow]; try reflexivity.
+  - intros x x' y y' Hx Hy. rewrite Hx, Hy. reflexivity.
+  - intros x x' y y' Hx Hy. rewrite Hx, Hy. reflexivity.
+  - intros x x' y y' Hx Hy. rewrite Hx, Hy. reflexivity.
+  - intros x x' n Hx. rewrite Hx. reflexivity.
+Qed.
+Lemma alg_qr_q : alg_rel alg_qr alg_q Qeq.
+Proof.
+  constructor; cbn [alg_qr alg_q a0 a1 aadd amul asub apow]; try reflexivity.
+  - intros x x' y y' Hx Hy. rewrite Qred_correct, Hx, Hy. reflexivity.
+  - intros x x' y y' Hx Hy. rewrite Hx, Hy. reflexivity.
+  - intros x x' y y' Hx Hy. rewrite Hx, Hy. reflexivity.
+  - intros x x' n Hx. rewrite Hx. reflexivity.
+Qed.
+
+Lemma expectation_proper : forall g r phi phi' u u',
+    (phi == phi')%Q -> (forall v, (u v == u' v)%Q) ->
+    (expectation g r phi u == expectation g r phi' u')%Q.
+Proof.
+  intros g r phi phi' u u' Hphi Hu. rewrite <- !expectation_rec.
+  apply (exact_gen_rel alg_q alg_q Qeq alg_q_proper); assumption.
+Qed.
+
+(* the lifting for a motif with arbitrary vertex labels (used by C17) *)
+Lemma peq_identity_lift_gen : forall g r,
+    peq (auto_expr g r) (exact_expr g r) = true ->
+    forall (phi : Q) (u : nat -> Q), (auto_q g r phi u == expectation g r phi u)%Q.
+Proof.
+  intros g r Hp phi u.
+  pose (n := S (list_max (g_nodes g))).
+  pose (env := env_of phi (map u (seq 0 n))).
+  assert (Hu : forall v, In v (g_nodes g) -> peval env (eu0 v) = u v).
+  { intros v Hv.
+    assert (Hle : v <= list_max (g_nodes g)).
+    { pose proof (proj1 (list_max_le (g_nodes g) (list_max (g_nodes g))) (le_n _)) as Hf.
+      rewrite Forall_forall in Hf. apply Hf, Hv. }
+    unfold env. rewrite peval_eu0.
+    rewrite (nth_indep _ 0%Q (u 0)) by (rewrite map_length, seq_length; unfold n; lia).
+    rewrite map_nth, seq_nth by (unfold n; lia). reflexivity. }
+  pose proof (peq_sound _ _ Hp env) as He.
+  unfold auto_expr, exact_expr in He.
+  rewrite (auto_gen_hom alg_pe alg_q (peval env) (peval_hom env)) in He.
+  rewrite (exact_gen_hom alg_pe alg_q (peval env) (peval_hom env)) in He.
+  rewrite (auto_gen_ext alg_q _ r _ _ u Hu) in He.
+  rewrite (exact_gen_ext alg_q _ r _ _ u Hu) in He.
+  change (peval env ephi0) with phi in He.
+  unfold auto_q. rewrite He. apply expectation_rec.
 Qed.
